@@ -1315,9 +1315,12 @@ def oracle_C20(cmds, impl, model, stats: Stats):
                 really = nxt[3][1] in ops[0]["colset"]
             elif kind == "unsupported-expression":
                 acc: set[str] = set()
-                sups_in(nxt[3], acc)
+                sups_in(nxt[4] if nxt[0] == "join" else nxt[3], acc)
                 ek = engine_kinds(ctx).get(ops[0]["eng"], "?")
                 really = bool(acc) and ek not in acc
+                if nxt[0] == "join":
+                    # a join inside one engine whose predicate that engine does not support
+                    really = really and ops[0]["eng"] == ops[1]["eng"]
             if not really:
                 stats.note(cmds[k + 1], False, "not-actually-ill-formed:" + kind)
                 continue
@@ -1326,7 +1329,12 @@ def oracle_C20(cmds, impl, model, stats: Stats):
                 out.append(Violation("C20", f"ill-formed-request-accepted:{kind}", f"{cmds[k + 1]}: {il[:200]}"))
             elif il.startswith("err "):
                 err = il.split()[1]
-                if err not in EXPECTED_ERRORS[kind]:
+                expected = set(EXPECTED_ERRORS[kind])
+                if kind == "unsupported-expression" and nxt[0] == "join":
+                    # an operand carrying a sort without a slice is rejected first, with the documented
+                    # row-order-loss error: the request is ill-formed in two ways, either error is right
+                    expected.add("RelationalAlgebraError")
+                if err not in expected:
                     out.append(Violation("C20", f"ill-formed-request-wrong-error:{kind}:{err}",
                                          f"{cmds[k + 1]}: raised {err}, documented {sorted(EXPECTED_ERRORS[kind])}"))
         if c[0] == "show" and impl[k].startswith("ok "):
